@@ -164,10 +164,11 @@ CLAIMED = {
     "C15": entry(
         "the stored lines are an ordered finite map: a numbered line inserts or replaces and nothing else changes, a bare number deletes, DELETE a-b removes "
         "exactly the inclusive range, iterating Listing::list_line as the runtime does yields exactly the lines of the range in ascending order; in every state "
-        "reachable through enter / execute / interrupt the lines ascend strictly; a numbered line's number is at most 65529 (Props/C15.v).",
+        "reachable through enter / execute / interrupt the lines ascend strictly; a numbered line's number is at most 65529; the range parser reads nothing / n / "
+        "n- / -m / n-m as the bounds (0,65529) / (n,n) / (n,65529) / (0,m) / (n,m) and refuses an inverted range (Props/C15.v, Proofs/Store.v, StoreRt.v, ParseRange.v).",
         "histories of insert / replace / bare-number delete / LIST / DELETE in every range form (exhaustive over a small universe, random over the whole "
         "number range) on model and crate; a reference map predicts every LIST output, every rejection and the listing after every step.",
-        "Range-operand parsing (bare DELETE, inverted ranges, numbers above 65529 rejected) is differential only.",
+        "That DELETE refuses the bare form at run time and how numbers above 65529 are rejected by the scanner are differential only.",
         "Coq refinement to an ordered map + reachable-state invariant + history-based differential check with a reference map"),
     "C16": entry(
         "? and ' scan to the PRINT and REM tokens; the operator and GO TO / GO SUB merges hold for any amount of blank space (Props/C16.v).",
